@@ -303,10 +303,20 @@ def through_refs():
     ]
 
 
+# the entry points C10 speaks about (allocator-extended constructors, copy / move construction and assignment, the swaps)
+C10_PROBES = {"ctor.alloc", "ctor.exts_alloc", "ctor.elem_alloc", "ctor.exts_elem_alloc", "ctor.copy", "ctor.copy_alloc", "ctor.move",
+              "ctor.move_alloc", "ctor.from_ref_alloc", "ctor.from_conv_array_alloc", "assign.copy", "assign.move", "swap.std", "swap.adl",
+              "swap.member"}
+
+
 def all_probes():
     ps = construction() + assignment() + swap_decay_conv() + queries() + comparisons() + through_refs()
     ids = [p["id"] for p in ps]
     assert len(ids) == len(set(ids)), [i for i in ids if ids.count(i) > 1]
+    assert C10_PROBES <= set(ids), C10_PROBES - set(ids)
+    for p in ps:
+        if p["id"] in C10_PROBES:
+            p["props"] = list(p["props"]) + ["C10"]
     return ps
 
 
